@@ -208,6 +208,17 @@ let handle (req : sexp) : sexp =
   | L [A "ema_adjusted"; vals; alpha] ->
     let vl = List.map (fun x -> fl_of_string (atom x)) (lst vals) in
     L (List.map (fun v -> A (string_of_fl v)) (ema_adjusted vl (qc_of_string (atom alpha))))
+  | L [A "across_chunks"; d; r; mr; ng; chunks] ->
+    (* chunks: ((pointer...) (codes...) (vals...)) ... *)
+    let D (o, rd, pr) = dom_of d in
+    let vl s = List.map (fun x -> rd (atom x)) (lst s) in
+    let chs = List.map (fun c -> match lst c with
+        | [p; codes; vals] -> (List.map (fun x -> nat_of x) (lst p), List.combine (zlist codes) (vl vals))
+        | _ -> failwith "bad chunk") (lst chunks) in
+    let out = apply_across_chunks o (rname_of (atom r)) (rname_of (atom mr)) (nat_of ng) chs in
+    L (List.map (fun (v, c) -> L [A (pr v); A (string_of_z c)]) out)
+  | L [A "unify_codes"; p; codes] ->
+    zl (unify_codes (List.map (fun x -> nat_of x) (lst p)) (zlist codes))
   | L (A op :: _) -> failwith ("unknown op " ^ op)
   | _ -> failwith "bad request"
 
